@@ -378,11 +378,15 @@ def check(repo, run, tier):
     g(unitrules.suffix_constructors, repo, run, 'C13.R4')
     g(unitrules.tag_spec, repo, run, 'C13.R4', ['!call', '!call:', '!bind', '!bind:'])
     g(unitrules.import_name_table, repo, run, 'C13.R6')
+    g(unitrules.small_node_tables, repo, run, 'C13.R6', 'import')
+    g(unitrules.small_node_tables, repo, run, 'C13.R3', 'function-bool')
     g.done()
 
 
 def mutants(repo):
     return [
+        Mutant('import-node-evaluates-to-nothing', lambda r: in_func(r, 'ImportNode.ayns.on_evaluate_impl', "return import_name(str(self))", "import_name(str(self))"), ['C13.R6']),
+        Mutant('function-node-truth-lost', lambda r: in_func(r, 'FunctionNode.__bool__', "return bool(self._func)", "bool(self._func)"), ['C13.R3']),
         Mutant('attribute-lookup-skipped', lambda r: in_func(r, 'utils.import_name', "        if current is not None:\n            try:\n                current = getattr(current, element)", "        if current is None:\n            try:\n                current = getattr(current, element)"), ['C13.R6']),
         Mutant('suffix-without-metadata-rejected', lambda r: in_func(r, 'yaml._bind_constructor', "pad_with_none(*tag_suffix.split(':', maxsplit=1), minlen=2)", "pad_with_none(*tag_suffix.split(':', maxsplit=1))"), ['C13.R4']),
         Mutant('function-args-not-normalised', lambda r: in_func(r, 'FunctionNode.__init__', "if args is not None and not isinstance(args, dict):", "if args is None and not isinstance(args, dict):"), ['C13.R5']),
